@@ -94,6 +94,41 @@ Definition c11_seq_m (x : c11_seq_case) : bool :=
 Definition c11_seq_violations (l : list c11_seq_case) : list nat := indices_where (fun k => negb (c11_seq_v k)) l.
 Definition c11_seq_mismatches (l : list c11_seq_case) : list nat := indices_where (fun k => negb (c11_seq_m k)) l.
 
+(* ---------- a handler in progress ---------- *)
+(* QoS of the inbound PUBLISH whose handler is parked, exclusive-lock caller (0 none, 1 Disconnect, 2 Done(),
+   3 Handle(), 4 Close()), it arrives before the requests (true) or after them, cause (0 cancel, 1 deadline), the
+   handler issues a request itself when released, the requests, their (result, retryable), the exclusive-lock
+   caller returned promptly, the handler returned once released, Done() closed and reader gone after the final
+   Close(), anything left/stuck *)
+Definition c11_handler_case := (N * N * bool * N * bool * list N * list (N * bool) * bool * bool * bool * bool * bool)%type.
+
+Fixpoint dec_calls (l : list N) : option (list call) :=
+  match l with
+  | [] => Some []
+  | c :: r => match dec_call c, dec_calls r with Some c, Some r => Some (c :: r) | _, _ => None end
+  end.
+
+Definition closes_transport (excl : N) : bool := match excl with 1 | 4 => true | _ => false end.
+
+Definition c11_handler_v (x : c11_handler_case) : bool :=
+  let '(q, excl, before, z, reent, cs, rs, exret, hret, done, rexit, bad) := x in
+  negb bad && exret && hret && done && rexit && Nat.eqb (length rs) (length cs) &&
+  forallb (fun r => rclass_eqb (dec_res (fst r)) KCtx ||
+                    (before && closes_transport excl && rclass_eqb (dec_res (fst r)) KWrite)) rs.
+
+Definition c11_handler_m (x : c11_handler_case) : bool :=
+  let '(q, excl, before, z, reent, cs, rs, exret, hret, done, rexit, bad) := x in
+  match dec_calls cs, dec_cause z with
+  | Some cs, Some z =>
+      list_eqb (fun a b => rclass_eqb (fst a) (fst b) && Bool.eqb (snd a) (snd b))
+               (map (fun r => (dec_res (fst r), snd r)) rs)
+               (handler_results (before && closes_transport excl) cs z)
+  | _, _ => false
+  end.
+
+Definition c11_handler_violations (l : list c11_handler_case) : list nat := indices_where (fun k => negb (c11_handler_v k)) l.
+Definition c11_handler_mismatches (l : list c11_handler_case) : list nat := indices_where (fun k => negb (c11_handler_m k)) l.
+
 (* ---------- stray acknowledgements before the cause ---------- *)
 (* call (99 = no call blocked), point, cause, k, result, retryable, Done() closed, reader gone,
    the marker PUBLISH sent after the stray packets was handed to the handler (= the reader is alive while the
